@@ -134,6 +134,7 @@ class Engine:
         self.contract = None
         self.label = ""
         self.events = []            # effect log of the current path (ghost)
+        self.ghost_hits = set()
         self.stats = {"paths": 0, "feas_checks": 0}
 
     # ----------------------------------------------------------------------------------
@@ -323,6 +324,12 @@ class Engine:
         if m is None:
             raise Unsupported(f"statement {type(node).__name__} (line {node.lineno})")
         m(node)
+        if len(self.frames) == 1 and self.contract is not None and self.contract.ghost and not isinstance(node, (ast.For, ast.While, ast.If, ast.Try)):
+            key = "after:" + " ".join(self.frame.mod.segment(node).split())
+            hook = self.contract.ghost.get(key)
+            if hook is not None:
+                self.ghost_hits.add(key)
+                hook(self, self.frame.env)
 
     def ex_Pass(self, node):
         pass
@@ -645,6 +652,8 @@ class Engine:
     # ---- assignment
     def assign(self, tgt, val):
         if isinstance(tgt, ast.Name):
+            if len(self.frames) == 1 and self.contract is not None and tgt.id in self.contract.locals and isinstance(val, CList):
+                val = to_slist(val, self.contract.locals[tgt.id].t)
             self.frame.env[tgt.id] = val
         elif isinstance(tgt, (ast.Tuple, ast.List)):
             items = self.unpack(val, len(tgt.elts), tgt)
@@ -933,6 +942,9 @@ class Engine:
         return result
 
     def cmp(self, op, a, b, node):
+        from .prelude import ColView, DefMask, Inf
+        if isinstance(a, ColView) and isinstance(b, Inf) and isinstance(op, ast.NotEq):
+            return DefMask(a.rows)
         if isinstance(op, (ast.Is, ast.IsNot)):
             r = self.identity(a, b)
             return r if isinstance(op, ast.Is) else b_not(r)
@@ -1052,6 +1064,15 @@ class Engine:
                 self.may_raise("IndexError", b_not(z3.And(j >= 0, j < base.ncols)), node, "column index")
                 return base.comps[r][j]
             raise Unsupported("matrix index form")
+        if isinstance(base, SList) and isinstance(idx, tuple) and len(idx) == 2 and isinstance(idx[0], slice) and idx[0] == slice(None, None, None) and isinstance(idx[1], int):
+            from .prelude import ColView
+            return ColView(base, idx[1])
+        if isinstance(base, SList) and isinstance(idx, (SList, CList)):
+            # numpy fancy indexing rows[index_list]
+            ix = to_slist(idx, TInt)
+            j = z3.Int("_fi")
+            self.may_raise("IndexError", b_not(z3.ForAll([j], z3.Implies(z3.And(0 <= j, j < ix.n), z3.And(0 <= ix.comps[0][j], ix.comps[0][j] < base.n)))), node, "fancy index")
+            return SList(base.t, ix.n, [z3.Lambda([j], c[ix.comps[0][j]]) for c in base.comps])
         if isinstance(base, SList):
             i = norm_index(I(idx), base.n)
             self.may_raise("IndexError", b_not(z3.And(i >= 0, i < base.n)), node, "index")
@@ -1142,6 +1163,38 @@ class Engine:
 
     def ev_GeneratorExp(self, node):
         return self.ev_ListComp(node)
+
+    def ev_DictComp(self, node):
+        """{k(x): v(x) for x in xs} over a symbolic list, without filter"""
+        if len(node.generators) != 1 or node.generators[0].ifs:
+            raise Unsupported("dict comprehension with filter / nesting")
+        g = node.generators[0]
+        it = self.ev(g.iter)
+        items = self.concrete_items(it)
+        if items is not None:
+            out = {}
+            saved = dict(self.frame.env)
+            for item in items:
+                self.assign(g.target, item)
+                out[self.ev(node.key)] = self.ev(node.value)
+            self.frame.env.clear()
+            self.frame.env.update(saved)
+            return out
+        xs = self.as_sequence(it)
+        i = z3.Int(f"_dc{node.lineno}")
+        saved = dict(self.frame.env)
+        self.assign(g.target, slist_get(xs, i))
+        kv, vv = self.ev(node.key), self.ev(node.value)
+        self.frame.env.clear()
+        self.frame.env.update(saved)
+        kt, vt = type_of(kv), type_of(vv)
+        if is_sym(vv) or any(is_sym(x) for x in (vv if isinstance(vv, tuple) else ())):
+            raise Unsupported("dict comprehension with a symbolic value expression")
+        ks = key_sort_of(kt)
+        kx = z3.Const(f"_dck{node.lineno}", ks)
+        dom = z3.Lambda([kx], z3.Exists([i], z3.And(0 <= i, i < xs.n, key_term(kt, kv) == kx)))
+        comps = [z3.K(ks, ops.term(f) if not is_sym(f) else f) for f in vt.flat(vv)]
+        return SDict(kt, vt, dom, comps)
 
     def _compr_concrete(self, gens):
         # evaluate the first iterable to see whether it is concrete; (cheap double evaluation, side-effect free)
@@ -1337,6 +1390,9 @@ class Engine:
             for n, v in zip(names, args):
                 env[n] = v
             env.update(kwargs)
+        for pn, pt in contract.params.items():
+            if isinstance(pt, TList) and isinstance(env.get(pn), (CList, tuple)):
+                env[pn] = to_slist(env[pn], pt.t)
         site = f"{fr.qual}@L{getattr(node, 'lineno', 0)}"
         arg_nodes = {}
         if node is not None and fnode is not None:
